@@ -261,7 +261,9 @@ Definition gid : Z := 1.       (* identity of the group node; 0 = no parent / an
 Definition accepts (c : gcls) (ty : Z) : bool := existsb (Z.eqb ty) (c_accept c).
 
 (* KIdx: an object with __index__ that is not an int (numpy integer) *)
-Inductive key := KInt (i : Z) | KSlice (lo hi : option Z) | KStr (s : string) | KBad | KIdx (i : Z).
+(* KSliceStep: a slice with an explicit step (any integer, also 1, 0 and negative) *)
+Inductive key := KInt (i : Z) | KSlice (lo hi : option Z) | KStr (s : string) | KBad | KIdx (i : Z)
+  | KSliceStep (lo hi : option Z) (step : Z).
 
 Inductive res :=
 | ROk
@@ -290,6 +292,37 @@ Definition slice_of {A} (l : list A) (lo hi : option Z) : list A :=
   let b := clamp n hi n in
   firstn (Z.to_nat (b - a)) (skipn (Z.to_nat a) l).
 
+(* Python slice with an explicit step: slice(lo, hi, step).indices(n) and the elements it selects.
+   step > 0: bounds clamped to [0, n], defaults 0 and n; step < 0: bounds clamped to [-1, n-1],
+   defaults n-1 and -1; the indices are start, start+step, ... strictly before stop. *)
+Definition clamp_to (lowb highb n : Z) (x : option Z) (dflt : Z) : Z :=
+  match x with
+  | None => dflt
+  | Some i => let j := if i <? 0 then i + n else i in Z.max lowb (Z.min highb j)
+  end.
+
+Definition slice_start_stop (n : Z) (lo hi : option Z) (step : Z) : Z * Z :=
+  if 0 <? step then (clamp_to 0 n n lo 0, clamp_to 0 n n hi n)
+  else (clamp_to (-1) (n - 1) n lo (n - 1), clamp_to (-1) (n - 1) n hi (-1)).
+
+Definition slice_len (start stop step : Z) : Z :=
+  if 0 <? step then (if start <? stop then (stop - start - 1) / step + 1 else 0)
+  else (if stop <? start then (start - stop - 1) / (- step) + 1 else 0).
+
+Definition slice_indices (n : Z) (lo hi : option Z) (step : Z) : list Z :=
+  let (a, b) := slice_start_stop n lo hi step in
+  map (fun k => a + Z.of_nat k * step) (seq 0 (Z.to_nat (slice_len a b step))).
+
+Definition pick {A} (l : list A) (i : Z) : list A :=
+  if i <? 0 then [] else match nth_error l (Z.to_nat i) with Some x => [x] | None => [] end.
+
+Definition slice_step {A} (l : list A) (lo hi : option Z) (step : Z) : list A :=
+  flat_map (pick l) (slice_indices (Z.of_nat (List.length l)) lo hi step).
+
+(* tuple / list slicing: "slice step cannot be zero" is a ValueError *)
+Definition getitem_slice_step (lo hi : option Z) (step : Z) (g : group) : res :=
+  if step =? 0 then RErr EValue else RMems (map mid (slice_step g lo hi step)).
+
 Definition name_is (s : string) (m : member) : bool :=
   match mget "name" m with VS t => String.eqb s t | _ => false end.
 
@@ -311,6 +344,7 @@ Definition getitem_0d (k : key) (g : group) : res :=
       | Some j => match nth_error g (Z.to_nat j) with Some m => RMem (mid m) | None => RErr EIndex end
       | None => RErr EIndex
       end
+  | KSliceStep lo hi step => getitem_slice_step lo hi step g
   end.
 
 (* BolometerCamera.__getitem__, bolometry.py:103-124: int, slice or str; first match by name.
@@ -327,10 +361,26 @@ Definition getitem_bolo (k : key) (g : group) : res :=
   | KStr s => match by_name s g with m :: _ => RMem (mid m) | [] => RErr EValue end
   | KBad => RErr EType
   | KIdx _ => RErr EType      (* isinstance(item, (int, slice)) is False for a numpy integer *)
+  | KSliceStep lo hi step => getitem_slice_step lo hi step g
   end.
 
 Definition getitem (c : gcls) : key -> group -> res :=
   match c_flavour c with FObserver0D => getitem_0d | FBolometer => getitem_bolo end.
+
+(* list(group).  Observer0DGroup defines no __iter__: Python falls back to __getitem__(0),
+   __getitem__(1), ... until IndexError (base.py:62-80); BolometerCamera.__iter__ yields the foils
+   (bolometry.py:92-101).  The fuel is one more than the number of members. *)
+Fixpoint iterate_from (fuel : nat) (i : Z) (g : group) : list Z :=
+  match fuel with
+  | O => []
+  | S f => match getitem_0d (KInt i) g with RMem id => id :: iterate_from f (i + 1) g | _ => [] end
+  end.
+
+Definition iterate (c : gcls) (g : group) : res :=
+  match c_flavour c with
+  | FObserver0D => RMems (iterate_from (S (List.length g)) 0 g)
+  | FBolometer => RMems (map mid g)
+  end.
 
 (* the objects a case can add: identity -> (type tag, initial attribute store incl. its name) *)
 Record env := { e_pool : list (Z * (Z * store)) }.
@@ -377,7 +427,8 @@ Inductive op :=
 | OLen                                           (* len(group) *)
 | ODirect (id : Z) (a : string) (v : val)        (* member.a = v, done on the member itself, not through the group *)
 | OMembers                                       (* group.observers / .sight_lines / .foil_detectors / list(group) *)
-| OAssignRej (a : string) (v : val) (k : nat) (e : err).  (* group.a = v where the k-th member refuses its value with e *)
+| OAssignRej (a : string) (v : val) (k : nat) (e : err)   (* group.a = v where the k-th member refuses its value with e *)
+| OIter.                                         (* list(group): the iteration protocol *)
 
 Definition find_descr (c : gcls) (a : string) : option descr :=
   find (fun d => String.eqb (d_name d) a) (c_table c).
@@ -421,6 +472,7 @@ Definition step (c : gcls) (e : env) (g : group) (o : op) : group * res :=
       | Some d => let (g', o) := set_sem_rej d v k e g in (g', match o with Done => ROk | Raised x => RErr x end)
       | None => (g, RErr EAttr)
       end
+  | OIter => (g, iterate c g)
   end.
 
 Fixpoint run (c : gcls) (e : env) (g : group) (ops : list op) : group * list res :=
